@@ -13,8 +13,8 @@ Import ListNotations.
 (* The channel itself is FIFO and loses nothing, under EVERY schedule (overlapping iterations,
    close, cancellation included): per sender, what the channel has released to receivers, then what
    is queued, then what the sender has still to send, is that sender's program in order. *)
-Theorem C10_channel_fifo_no_loss : forall (prog : nat -> list N) (c : nat) (sch : list act) (s : st),
-  run (init c prog) sch = Some s ->
+Theorem C10_channel_fifo_no_loss : forall (prog : nat -> list N) (f : bool) (c : nat) (sch : list act) (s : st),
+  run (init f c prog) sch = Some s ->
   forall i, from i (map snd (deq s) ++ buf s) ++ tag i (todo s i) = tag i (prog i).
 Proof. exact fifo_all_schedules. Qed.
 
@@ -25,8 +25,8 @@ Proof. exact fifo_all_schedules. Qed.
    every receiver's script was handed exactly the values the channel released to it, in that order
    (receive(), <-c and range alike), the released values are per sender exactly the values sent, in
    the sender's order, and the range keys count 0,1,2,... *)
-Theorem C10_guarded : forall (prog : nat -> list N) (c : nat) (sch : list act) (s : st),
-  run (init c prog) sch = Some s -> exclusive (init c prog) sch = true ->
+Theorem C10_guarded : forall (prog : nat -> list N) (f : bool) (c : nat) (sch : list act) (s : st),
+  run (init f c prog) sch = Some s -> exclusive (init f c prog) sch = true ->
   buf s = [] -> iters s = [] ->
   (forall i, from i (map snd (deq s)) ++ tag i (todo s i) = tag i (prog i)) /\
   (forall j, by_key j (delivered (seen s)) = by_key j (deq s)) /\
@@ -35,14 +35,14 @@ Proof. exact guarded_delivery. Qed.
 
 (* the class a script controls: at most one receiver (j0) ranges over the channel; any number of
    other receivers may use receive() / <-c concurrently *)
-Theorem C10_single_iterator_is_guarded : forall (j0 c : nat) (prog : nat -> list N) (sch : list act),
-  single_iter j0 sch = true -> exclusive (init c prog) sch = true.
+Theorem C10_single_iterator_is_guarded : forall (j0 : nat) (f : bool) (c : nat) (prog : nat -> list N) (sch : list act),
+  single_iter j0 sch = true -> exclusive (init f c prog) sch = true.
 Proof. exact single_exclusive_init. Qed.
 
 (* multiset form for n senders that have sent everything: the values handed to the scripts are a
    permutation of the values of the senders' programs (each exactly once) *)
-Theorem C10_guarded_exactly_once : forall (prog : nat -> list N) (c : nat) (sch : list act) (s : st) (n : nat),
-  run (init c prog) sch = Some s -> exclusive (init c prog) sch = true ->
+Theorem C10_guarded_exactly_once : forall (prog : nat -> list N) (f : bool) (c : nat) (sch : list act) (s : st) (n : nat),
+  run (init f c prog) sch = Some s -> exclusive (init f c prog) sch = true ->
   buf s = [] -> iters s = [] -> (forall i, todo s i = []) -> (forall i, n <= i -> prog i = []) ->
   Permutation (payloads (map snd (delivered (seen s)))) (flat_map prog (seq 0 n)).
 Proof. exact guarded_multiset. Qed.
@@ -53,18 +53,27 @@ Proof. exact guarded_multiset. Qed.
    lastReceived, receiver 2 overwrites it with 11, both Entry steps read 11: 11 is delivered twice, 10 is lost *)
 Theorem C10_refuted_range_multi :
   exists (prog : nat -> list N) (c : nat) (sch : list act) (s : st),
-    run (init c prog) sch = Some s /\
+    run (init false c prog) sch = Some s /\
     buf s = [] /\ iters s = [] /\ (forall i, todo s i = []) /\
     map snd (deq s) = [(0, 10%N); (0, 11%N)] /\
     delivered (seen s) = [(1, (0, 11%N)); (2, (0, 11%N))] /\
-    multi_iter sch = true /\ exclusive (init c prog) sch = false.
+    multi_iter sch = true /\ exclusive (init false c prog) sch = false.
 Proof. exists prog2, 2, sch_bad. exact range_multi_witness. Qed.
+
+(* ... and true of the proposed repair (ForIter takes the value and its entry from the channel in one
+   step, [init true]): the same conclusion for EVERY schedule, any number of ranging receivers *)
+Theorem C10_full_after_repair : forall (prog : nat -> list N) (c : nat) (sch : list act) (s : st),
+  run (init true c prog) sch = Some s -> buf s = [] ->
+  (forall i, from i (map snd (deq s)) ++ tag i (todo s i) = tag i (prog i)) /\
+  (forall j, by_key j (delivered (seen s)) = by_key j (deq s)) /\
+  entry_keys (seen s) = seq 0 (length (entry_keys (seen s))).
+Proof. exact repaired_delivery. Qed.
 
 (* what still holds under EVERY schedule, overlapping iterations included: as many values handed to
    scripts (plus iterations in progress) as the channel released, and nothing handed out that the
    channel did not release (no invented value) *)
-Theorem C10_all_schedules_count_and_origin : forall (prog : nat -> list N) (c : nat) (sch : list act) (s : st),
-  run (init c prog) sch = Some s ->
+Theorem C10_all_schedules_count_and_origin : forall (prog : nat -> list N) (f : bool) (c : nat) (sch : list act) (s : st),
+  run (init f c prog) sch = Some s ->
   length (delivered (seen s)) + length (iters s) = length (deq s) /\
   NoDup (map fst (iters s)) /\
   (forall m, last s = Some m -> In m (map snd (deq s))) /\
@@ -101,8 +110,8 @@ Proof. exact iter_end_only_when. Qed.
 
 (* when a range loop ends it has been handed everything the channel released to it, and everything
    that was sent has been released *)
-Theorem C10_iteration_complete : forall (prog : nat -> list N) (c : nat) (sch : list act) (s : st) (j : nat) (s' : st),
-  run (init c prog) sch = Some s -> exclusive (init c prog) sch = true ->
+Theorem C10_iteration_complete : forall (prog : nat -> list N) (f : bool) (c : nat) (sch : list act) (s : st) (j : nat) (s' : st),
+  run (init f c prog) sch = Some s -> exclusive (init f c prog) sch = true ->
   step s (Next j) = Some (s', EvIterEnd j) ->
   closed s = true /\
   (forall i, from i (map snd (deq s)) ++ tag i (todo s i) = tag i (prog i)) /\
@@ -136,13 +145,19 @@ Proof. exact accept_sound. Qed.
 
 (* ---------------------------------------------------------------- non-vacuity *)
 
+Example C10_repair_satisfiable :
+  exists s, run (init true 2 (fun i => if Nat.eqb i 0 then [10; 11]%N else []))
+                [Send 0; Send 0; Next 1; Next 2; Close 0; Next 1; Next 2] = Some s /\
+            buf s = [] /\ delivered (seen s) = [(1, (0, 10%N)); (2, (0, 11%N))] /\ entry_keys (seen s) = [0; 1].
+Proof. eexists. split; [vm_compute; reflexivity|]. vm_compute. repeat split. Qed.
+
 Definition ex_prog : nat -> list N := fun i => match i with 0 => [1; 2; 3]%N | 1 => [7; 8]%N | _ => [] end.
 Definition ex_sch : list act :=
   [Send 0; Send 1; Next 5; Send 0; Store 5; Count 5; Entry 5; Recv 6; Send 1; Next 5; Store 5; Recv 6; Count 5; Entry 5;
    Send 0; Next 5; Store 5; Count 5; Entry 5; Close 0; Next 5; Recv 6; Recv 6].
 
 Example C10_guarded_satisfiable :
-  exists s, run (init 2 ex_prog) ex_sch = Some s /\ exclusive (init 2 ex_prog) ex_sch = true /\
+  exists s, run (init false 2 ex_prog) ex_sch = Some s /\ exclusive (init false 2 ex_prog) ex_sch = true /\
             single_iter 5 ex_sch = true /\ buf s = [] /\ iters s = [] /\
             by_key 5 (delivered (seen s)) = [(0, 1%N); (0, 2%N); (0, 3%N)] /\
             by_key 6 (delivered (seen s)) = [(1, 7%N); (1, 8%N)] /\
